@@ -1,4 +1,6 @@
 import CsVerif.Model.C06
+import CsVerif.Model.C06Gen
+import CsVerif.Model.PyUShow
 /-!
 Line-protocol driver for the C06 model.
 
@@ -176,10 +178,191 @@ def runHist : Option Metadata → List (List String) → List String
     let (a, cur') := histStep cur ws
     a :: runHist cur' rest
 
+/-! ### `g-*` streams: the definitions TRANSLATED from the source of `decrypt_metadata` / `encrypt_metadata` (Gen/PyC2M.lean, with
+the external `cipher.decrypt` / `cipher.encrypt` instantiated as for the hand model: primitive results from the line / toy
+primitives), and the run-time operations `BeaconMetadata(bytes)` / `.dumps()` / `len()` of Model/PyU_T07.lean on the same cases.
+`gdumps` / `gparse` / `genc` / `gdec` / `grt` / `ghist` take the lines of `dumps` / `parse` / `enc` / `dec` / `rt` / `hist`;
+`garg enc <k> <V>` / `garg dumps <V>` take any Python value in the notation of Model/PyUShow.lean (`I7701[…]` = a BeaconMetadata
+object with arbitrary attribute values). -/
+
+def showE (f : α → String) : PyU.T07PyE α → String
+  | .ok a => "ok " ++ f a
+  | .error (.py e) => "exc " ++ e.name
+  | .error .structError => "exc error"
+
+/-- a returned `BeaconMetadata` object, shown like `showMeta` -/
+def vMeta (v : PyU.V) : String :=
+  match C06Gen.decMeta? v with
+  | some m => showMeta m
+  | none => "?meta " ++ PyU.vShow v
+
+def gclsOf (cid : Nat) : Option PyU.Cls :=
+  if cid == Gen.PyC2M.BeaconMetadataCls.cid then some Gen.PyC2M.BeaconMetadataCls
+  else if cid == Gen.PyC2M.Pkcs1Cipher.cid then some Gen.PyC2M.Pkcs1Cipher
+  else none
+
+def gvTok (s : String) : Option PyU.V := PyU.vTok (fun _ => none) gclsOf s
+
+/-- the translated `encrypt_metadata` under the toy primitives of modulus length `k`, on any value: the answer of `enc` (blob
+length, `size` attribute afterwards, plaintext handed to RSA) and the caller's object afterwards -/
+def gencV (k : Nat) (obj : PyU.V) : String × Option PyU.V :=
+  let c := toyCrypto k
+  match C06Gen.encryptMetadataG c [] obj (PyU.lit "key") with
+  | .ok (.tuple [.bytes blob, obj']) =>
+    match c.rsaDec blob, PyU.getAttr obj' "size" with
+    | .ok (some pt), .ok (.int sz) => (s!"ok {blob.length} {sz} {showBytes pt}", some obj')
+    | _, _ => ("model-error toy decrypt failed", some obj')
+  | .ok v => ("?enc " ++ PyU.vShow v, none)
+  | .error (.py e) => ("exc " ++ e.name, none)
+  | .error .structError => ("exc error", none)
+
+/-- `decrypt_metadata(encrypt_metadata(m))` through the translated definitions -/
+def grtV (k : Nat) (obj : PyU.V) : String × Option PyU.V :=
+  let c := toyCrypto k
+  match C06Gen.encryptMetadataG c [] obj (PyU.lit "key") with
+  | .ok (.tuple [.bytes blob, obj']) => (showPy vMeta (C06Gen.decryptMetadataG c (.bytes blob) (PyU.lit "key")), some obj')
+  | .ok v => ("?enc " ++ PyU.vShow v, none)
+  | .error (.py e) => ("exc " ++ e.name, none)
+  | .error .structError => ("exc error", none)
+
+def gstep : List String → String
+  | "gdumps" :: rest =>
+    match metaToks rest with
+    | some m =>
+      match PyU.t07Len Gen.PyC2M.structs (C06Gen.encMeta m), PyU.t07Dumps Gen.PyC2M.structs (C06Gen.encMeta m) with
+      | .ok (.int n), .ok (.bytes d) => s!"ok {n} {showBytes d}"
+      | .error e, _ => showE (fun (_ : Unit) => "") (.error e)
+      | _, .error e => showE (fun (_ : Unit) => "") (.error e)
+      | _, _ => "?dumps"
+    | none => "bad-op"
+  | ["gparse", d] =>
+    match bytesTok d with
+    | some d => showPy vMeta (PyU.t07StructParse Gen.PyC2M.BeaconMetadata (.bytes d))
+    | none => "bad-op"
+  | "genc" :: _key :: k :: rest =>
+    match natTok k, metaToks rest with
+    | some k, some m => (gencV k (C06Gen.encMeta m)).1
+    | _, _ => "bad-op"
+  | ["gdec", key, blob, prim] =>
+    match bytesTok blob, primTok prim with
+    | some blob, some p => showPy vMeta (C06Gen.decryptMetadataG (lineCrypto p []) (.bytes blob) (PyU.lit key))
+    | _, _ => "bad-op"
+  | "grt" :: _key :: k :: rest =>
+    match natTok k, metaToks rest with
+    | some k, some m => (grtV k (C06Gen.encMeta m)).1
+    | _, _ => "bad-op"
+  | ["garg", "enc", k, v] =>
+    match natTok k, gvTok v with
+    | some k, some v =>
+      match gencV k v with
+      | (a, some obj') => a ++ " " ++ PyU.vShow obj'
+      | (a, none) => a
+    | _, _ => "bad-op"
+  | ["garg", "dumps", v] =>
+    match gvTok v with
+    | some v =>
+      match PyU.t07Len Gen.PyC2M.structs v, PyU.t07Dumps Gen.PyC2M.structs v with
+      | .ok n, .ok d => s!"ok {PyU.vShow n} {PyU.vShow d}"
+      | .error e, _ => showE (fun (_ : Unit) => "") (.error e)
+      | _, .error e => showE (fun (_ : Unit) => "") (.error e)
+    | none => "bad-op"
+  | _ => "bad-op"
+
+/-- a step of `ghist`: as `histStep`, every library call through the translated definitions; the caller's object is a Python
+value threaded through `encrypt_metadata` -/
+def ghistStep (cur : Option PyU.V) (ws : List String) : String × Option PyU.V :=
+  match ws, cur with
+  | "new" :: rest, _ =>
+    match metaToks rest with
+    | some m => ("ok", some (C06Gen.encMeta m))
+    | none => ("bad-op", cur)
+  | ["set", name, v], some obj =>
+    let val : Option PyU.V := if name == "aes_rand" || name == "info" then (bytesTok v).map .bytes else (natTok v).map fun n => .int n
+    match val with
+    | some x =>
+      match PyU.instSetAttr obj name x with
+      | .ok obj' => ("ok", some obj')
+      | .error _ => ("bad-op", cur)
+    | none => ("bad-op", cur)
+  | ["show"], some obj => ("ok " ++ vMeta obj, cur)
+  | ["eo", _key, k], some obj =>
+    match natTok k with
+    | some k =>
+      match gencV k obj with
+      | (a, some obj') => (a, some obj')
+      | (a, none) =>
+        -- the call raised: the caller's object keeps the new size iff `len(obj)` succeeded (hand model: `afterEncrypt`)
+        (a, (C06Gen.decMeta? obj).map fun m => C06Gen.encMeta (afterEncrypt m))
+    | none => ("bad-op", cur)
+  | ["ro", _key, k], some obj =>
+    match natTok k with
+    | some k =>
+      match grtV k obj with
+      | (a, some obj') => (a, some obj')
+      | (a, none) => (a, (C06Gen.decMeta? obj).map fun m => C06Gen.encMeta (afterEncrypt m))
+    | none => ("bad-op", cur)
+  | op :: rest, _ =>
+    if op == "derive" then (step (op :: rest), cur) else (gstep (("g" ++ op) :: rest), cur)
+  | [], _ => ("bad-op", cur)
+
+def runGHist : Option PyU.V → List (List String) → List String
+  | _, [] => []
+  | cur, ws :: rest =>
+    let (a, cur') := ghistStep cur ws
+    a :: runGHist cur' rest
+
+/-! ### `pyu` stream: the run-time operations of Model/PyU_T07.lean on values of all kinds -/
+
+def strOfV : PyU.V → Option String
+  | .str cs => some (String.ofList (cs.map Char.ofNat))
+  | _ => none
+
+def pyuStep : List String → String
+  | [op, a] =>
+    match gvTok a with
+    | some a =>
+      match op with
+      | "t07parse" => showPy PyU.vShow (PyU.t07StructParse Gen.PyC2M.BeaconMetadata a)
+      | "t07dumps" => showE PyU.vShow (PyU.t07Dumps Gen.PyC2M.structs a)
+      | "t07len" => showE PyU.vShow (PyU.t07Len Gen.PyC2M.structs a)
+      | "t07any" => showPy PyU.vShow (PyU.t07Any a)
+      | "t07all" => showPy PyU.vShow (PyU.t07All a)
+      | "t07althex" => showPy (fun s => PyU.vShow (.str s)) (PyU.t07FmtAltHex a)
+      | _ => "bad-op"
+    | none => "bad-op"
+  | [op, a, b] =>
+    match gvTok a, gvTok b with
+    | some a, some b =>
+      match op with
+      | "t07fmt" =>
+        match b with
+        | .int w => showPy (fun s => PyU.vShow (.str s)) (PyU.t07FmtZeroHex a w.toNat)
+        | _ => "bad-op"
+      | "t07startswith" => showPy PyU.vShow (PyU.t07Startswith a b)
+      | "getattr" =>
+        match strOfV b with
+        | some n => showPy PyU.vShow (PyU.getAttr a n)
+        | none => "bad-op"
+      | _ => "bad-op"
+    | _, _ => "bad-op"
+  | ["setattr", a, n, b] =>
+    match gvTok a, gvTok n, gvTok b with
+    | some a, some n, some b =>
+      match strOfV n with
+      | some n => showPy PyU.vShow (PyU.instSetAttr a n b)
+      | none => "bad-op"
+    | _, _, _ => "bad-op"
+  | _ => "bad-op"
+
 def top : List String → String
   | "hist" :: rest =>
     let answers := runHist none (splitBar rest)
     if answers.isEmpty || answers.any (· == "bad-op") then "bad-op" else " | ".intercalate answers
-  | ws => step ws
+  | "ghist" :: rest =>
+    let answers := runGHist none (splitBar rest)
+    if answers.isEmpty || answers.any (· == "bad-op") then "bad-op" else " | ".intercalate answers
+  | "pyu" :: rest => pyuStep rest
+  | w :: rest => if w.startsWith "g" then gstep (w :: rest) else step (w :: rest)
+  | [] => "bad-op"
 
 end C06
